@@ -14,14 +14,16 @@
   would need the lock while it is taken does not happen).  `refRun` is the reference kept from the statement: the
   latest configuration received and the live registrations.  No bound anywhere.
 
-  Outside the model (disclosed): the shutdown window.  `__trigger_update` always submits; after `TaskHandler.flush()`
-  has closed the handler `submit_task` raises IllegalStateException (a BaseException) out of `update_new_config` /
-  `add_custom` / `remove_custom` AFTER the hash / configuration / registration was stored, so between `flush()` and
-  the end of `Deep.shutdown()` a poll answer or a register call can leave the stored state ahead of what is
-  installed (and kills the poll timer, which only survives `Exception`).  The theorems speak about the agent while
-  its task handler accepts work.
+  The shutdown window: `__trigger_update` always submits; after `TaskHandler.flush()` has closed the handler
+  `submit_task` raises IllegalStateException (a BaseException) out of `update_new_config` / `add_custom` /
+  `remove_custom` AFTER the hash / configuration / registration was stored.  The convergence theorems speak about the
+  agent while its task handler accepts work; the poll-thread machine at the end of this file (`C12Timer`, built on the
+  statement-by-statement translation of `LongPoll.poll` and the guard skeleton of `RepeatedTimer._target`) has the
+  window inside it: `c12_tick_survives_iff` names it as one of the two outcomes that end the thread, and
+  `c12_update_after_flush_kills_timer` is the witness.
 -/
 import DeepModel.Proofs.ConfigSvc
+import DeepModel.Proofs.C12Timer
 
 namespace C12
 open ConfigSvc Extracted.ConfigSvc
@@ -221,6 +223,202 @@ theorem c12_lock_needed :
                                     .taskStart 0, .taskRead 0, .taskCall 1, .taskInstall 1, .taskCall 0,
                                     .taskInstall 0]
     quiescent s = true ∧ s.svc.hash = some "h2" ∧ s.h.installed = [c1.trig] := by decide
+
+/-! ## the poll thread: `RepeatedTimer._target` running `LongPoll.poll`
+
+  `C12Timer.runPT evs` (Model/C12Timer.lean): `tick out tps` = one pass of the timer loop (the wait timed out, the
+  function — the statement-by-statement translation `pollOnce` of `LongPoll.poll` — runs against a stub that raises
+  either class, hands back garbage, or answers with any type and any payload), `stop` = `LongPoll.shutdown()`,
+  `flush` = `TaskHandler.flush()` closing the handler the apply tasks go to.  Every list is a history. -/
+
+section PollThread
+open C12Timer
+
+/-- **which poll outcome ends the thread — exactly** — a live poll thread issues the poll (one more request, carrying
+    the current hash) and is alive afterwards UNLESS the stub raised a `BaseException` that is not an `Exception`, or
+    the answer was an UPDATE it could convert while the task handler was already closed (`submit_task` refuses with
+    `IllegalStateException`, a `BaseException`): every other outcome — answer of any type, any payload, an
+    unconvertible payload, garbage instead of an answer, the stub raising any `Exception` — leaves it polling. -/
+theorem c12_tick_survives_iff (s : PT) (ha : s.alive = true) (hs : s.stopped = false) (out : StubOut)
+    (tps : List RawTp) :
+    ((stepPT s (.tick out tps)).alive = true ↔ ¬ Kills s.th.isOpen out tps) ∧
+    (stepPT s (.tick out tps)).issued = s.issued + 1 ∧
+    (stepPT s (.tick out tps)).sent = s.sent ++ [requestHash s.svc] := by
+  refine ⟨?_, (tick_live s ha hs out tps).1, (tick_live s ha hs out tps).2.1⟩
+  rw [tick_alive s ha hs out tps]
+  unfold Kills
+  generalize convertResponse tps = cfg
+  cases ho : s.th.isOpen with
+  | true =>
+    rw [refusal_open _ ho]
+    cases out with
+    | raises e => cases e <;> simp [pollOnce, fact_catchesExc, fact_catchesBase]
+    | garbage => simp [pollOnce, fact_catchesExc]
+    | answer rt ts h =>
+      cases rt with
+      | noChange => simp [pollOnce]
+      | other => simp [pollOnce]
+      | update => cases cfg <;> simp [pollOnce, fact_catchesExc, updateNewConfigE, triggerUpdateE]
+  | false =>
+    rw [refusal_closed _ ho]
+    cases out with
+    | raises e => cases e <;> simp [pollOnce, fact_catchesExc, fact_catchesBase]
+    | garbage => simp [pollOnce, fact_catchesExc]
+    | answer rt ts h =>
+      cases rt with
+      | noChange => simp [pollOnce]
+      | other => simp [pollOnce]
+      | update => cases cfg <;> simp [pollOnce, fact_catchesExc, fact_catchesBase, updateNewConfigE, triggerUpdateE]
+
+/-- **polling continues, and the next poll is issued** — for every sequence of poll outcomes in which the stub never
+    raises a non-`Exception` `BaseException` (answers of any type, malformed or unconvertible payloads, garbage, any
+    `Exception`), while the task handler accepts work: the thread is alive after all of them, it issued exactly one
+    request per pass, and nothing ended it. -/
+theorem c12_timer_issues_every_poll (ticks : List (StubOut × List RawTp))
+    (hb : ∀ t ∈ ticks, t.1 ≠ .raises .base) :
+    (runPT (ticks.map fun t => .tick t.1 t.2)).alive = true ∧
+    (runPT (ticks.map fun t => .tick t.1 t.2)).issued = ticks.length ∧
+    (runPT (ticks.map fun t => .tick t.1 t.2)).sent.length = ticks.length ∧
+    (runPT (ticks.map fun t => .tick t.1 t.2)).died = none := by
+  have key : ∀ (ticks : List (StubOut × List RawTp)) (s : PT), (∀ t ∈ ticks, t.1 ≠ .raises .base) →
+      s.alive = true → s.stopped = false → s.th.isOpen = true →
+      (runPTFrom s (ticks.map fun t => .tick t.1 t.2)).alive = true ∧
+      (runPTFrom s (ticks.map fun t => .tick t.1 t.2)).issued = s.issued + ticks.length ∧
+      (runPTFrom s (ticks.map fun t => .tick t.1 t.2)).sent.length = s.sent.length + ticks.length ∧
+      (runPTFrom s (ticks.map fun t => .tick t.1 t.2)).died = s.died := by
+    intro ticks
+    induction ticks with
+    | nil => intro s _ ha _ _; exact ⟨ha, rfl, rfl, rfl⟩
+    | cons t rest ih =>
+      intro s hb ha hs ho
+      have hl := tick_live s ha hs t.1 t.2
+      have hnk : ¬ Kills s.th.isOpen t.1 t.2 := by
+        rintro (h | ⟨h, _⟩)
+        · exact hb t (List.mem_cons_self ..) h
+        · rw [ho] at h; cases h
+      have hal := (c12_tick_survives_iff s ha hs t.1 t.2).1.2 hnk
+      have hd : (stepPT s (.tick t.1 t.2)).died = s.died := by
+        rw [tick_died s ha hs]
+        have hal' := hal
+        rw [tick_alive s ha hs] at hal'
+        cases hr : (pollOnce s.svc (refusal s.th) t.1 (convertResponse t.2)).2 with
+        | none => rfl
+        | some e => rw [hr] at hal'; simp only at hal' ⊢; simp [hal']
+      have := ih (stepPT s (.tick t.1 t.2)) (fun u hu => hb u (List.mem_cons_of_mem _ hu)) hal hl.2.2.1
+        (by rw [hl.2.2.2.1]; exact ho)
+      simp only [List.map_cons, runPTFrom, List.foldl_cons, List.length_cons]
+      simp only [runPTFrom] at this
+      refine ⟨this.1, ?_, ?_, ?_⟩
+      · rw [this.2.1, hl.1]; omega
+      · rw [this.2.2.1, hl.2.1]; simp; omega
+      · rw [this.2.2.2, hd]
+  have := key ticks PT.init hb rfl rfl rfl
+  simpa [runPT, PT.init] using this
+
+/-- the hand-written poll of the configuration machine IS the translated one: while the task handler accepts work, a
+    tick of the poll thread changes the configuration service exactly as `ConfigSvc.step` does for the op it stands
+    for (so `c12_converges`, `c12_hash`, `c12_error_keeps` speak about what the thread really does), and the thread
+    survives exactly when that machine's timer does. -/
+theorem c12_poll_thread_refines (locked : Bool) (s : PT) (c : St) (ha : s.alive = true) (hs : s.stopped = false)
+    (ho : s.th.isOpen = true) (hsvc : c.svc = s.svc) (hal : c.timerAlive = true) (out : StubOut)
+    (tps : List RawTp) :
+    (ConfigSvc.step locked c (Ev.toOp out tps)).svc = (stepPT s (.tick out tps)).svc ∧
+    (ConfigSvc.step locked c (Ev.toOp out tps)).timerAlive = (stepPT s (.tick out tps)).alive := by
+  rw [(tick_live s ha hs out tps).2.2.2.2, tick_alive s ha hs out tps, refusal_open _ ho, ← hsvc]
+  cases out with
+  | raises e =>
+    cases e <;> simp [Ev.toOp, ConfigSvc.step, ConfigSvc.pollFail, pollOnce, hal, timerCatches, fact_catchesExc,
+      fact_catchesBase, timerCatchesException, timerCatchesBase]
+  | garbage =>
+    simp [Ev.toOp, ConfigSvc.step, ConfigSvc.pollFail, pollOnce, hal, timerCatches, fact_catchesExc,
+      timerCatchesException]
+  | answer rt ts h =>
+    cases rt with
+    | noChange => simp [Ev.toOp, ConfigSvc.step, pollResp, pollNeedsConfig, pollDispatch, pollOnce, hal]
+    | other => simp [Ev.toOp, ConfigSvc.step, pollResp, pollNeedsConfig, pollDispatch, pollOnce, hal]
+    | update =>
+      simp only [Ev.toOp, ConfigSvc.step, pollResp, pollNeedsConfig]
+      cases convertResponse tps with
+      | none =>
+        simp [ConfigSvc.pollFail, pollOnce, hal, timerCatches, fact_catchesExc, timerCatchesException]
+      | some cfg => simp [pollDispatch, pollOnce, hal, updateNewConfigE, triggerUpdateE, updateNewConfig_split]
+
+/-- **shutdown stops the polling** — after `LongPoll.shutdown()` no further poll is issued and the stored
+    configuration is never touched again, whatever comes. -/
+theorem c12_stop_ends_polling (evs evs' : List Ev) :
+    (runPT (evs ++ .stop :: evs')).alive = false ∧ (runPT (evs ++ .stop :: evs')).issued = (runPT evs).issued ∧
+    (runPT (evs ++ .stop :: evs')).svc.hash = (runPT evs).svc.hash := by
+  have e : runPT (evs ++ .stop :: evs') = runPTFrom (stepPT (runPT evs) .stop) evs' := by
+    simp [runPT, runPTFrom, List.foldl_append]
+  rw [e]
+  have h := alive_false_stays evs' (stepPT (runPT evs) .stop) (by rw [step_stop])
+  rw [step_stop] at h
+  exact ⟨h.1, h.2.1, h.2.2.2.1⟩
+
+/-- the only thing that ever ends the thread by an exception is a `BaseException` that is not an `Exception` -/
+theorem c12_timer_dies_only_of_base (evs : List Ev) (e : Py.Exn) (h : (runPT evs).died = some e) : e = .base := by
+  have key : ∀ (evs : List Ev) (s : PT), (∀ e, s.died = some e → e = .base) →
+      ∀ e, (runPTFrom s evs).died = some e → e = .base := by
+    intro evs
+    induction evs with
+    | nil => intro s hs; exact hs
+    | cons ev rest ih =>
+      intro s hs
+      simp only [runPTFrom, List.foldl_cons]
+      apply ih
+      cases ev with
+      | stop => rw [step_stop]; exact hs
+      | flush => exact hs
+      | tick out tps =>
+        by_cases hrun : s.alive = true ∧ s.stopped = false
+        · intro e he
+          rw [tick_died s hrun.1 hrun.2] at he
+          cases hr : (pollOnce s.svc (refusal s.th) out (convertResponse tps)).2 with
+          | none => rw [hr] at he; exact hs e he
+          | some e' =>
+            rw [hr] at he
+            simp only at he
+            split at he
+            · exact hs e he
+            · rename_i hc
+              cases Option.some.inj he
+              cases e with
+              | exc => exact absurd fact_catchesExc hc
+              | base => rfl
+        · rw [tick_idle s (by
+            cases ha : s.alive <;> cases hst : s.stopped <;> simp_all)]
+          exact hs
+  exact key evs PT.init (by simp [PT.init]) e h
+
+/-- the guard skeleton of `_target` itself (regenerated): with `_time` and `event.wait` taken as not raising (trusted:
+    the interval is coerced and not zero), no placement of `Exception`-class faults, in any number of passes, makes
+    the thread's target raise. -/
+theorem c12_timer_skeleton_contains_exceptions (env : Guard.Env) (hf : Guard.FaultsIn Guard.RaiseSet.onlyExc env)
+    (tr : Guard.Trace) :
+    ∀ e tr', Guard.exec env (Tasks.assumePure ["prop:self._time", "self.event.wait"] timerSkeleton) tr ≠
+      (.raised e, tr') :=
+  Guard.guard_sound_for Guard.RaiseSet.onlyExc _ (by decide) env hf tr
+
+/-- witness (the shutdown window, `Deep.shutdown` flushes the task handler BEFORE it stops the poll timer): an UPDATE
+    answered between the two is stored — hash and configuration — but its apply task is refused, the exception is a
+    `BaseException`, the poll thread dies of it, and nothing will install the stored configuration. -/
+theorem c12_update_after_flush_kills_timer :
+    let t : RawTp := ⟨⟨"a.py", 1, "s1"⟩, true, true⟩
+    let s := runPT [.tick (.answer .update 1 "h1") [t], .flush, .tick (.answer .update 2 "h2") [t],
+                           .tick (.answer .noChange 3 "") []]
+    s.alive = false ∧ s.died = some .base ∧ s.issued = 2 ∧ s.svc.hash = some "h2" ∧ s.svc.queued = [] := by decide
+
+/-- non-vacuity: failures of every kind, then an update; stop; a tick after stop does nothing -/
+example :
+    let t : RawTp := ⟨⟨"a.py", 1, "s1"⟩, true, true⟩
+    let bad : RawTp := ⟨⟨"a.py", 2, "s2"⟩, true, false⟩
+    let s := runPT [.tick (.raises .exc) [], .tick .garbage [], .tick (.answer .other 5 "x") [t],
+                           .tick (.answer .update 1 "h1") [t, bad], .tick (.answer .noChange 2 "") [], .stop,
+                           .tick (.answer .update 3 "h3") []]
+    s.issued = 5 ∧ s.sent = [none, none, none, none, some "h1"] ∧ s.svc.hash = some "h1" ∧ s.died = none ∧
+    s.svc.polled = [t.trig] := by decide
+
+end PollThread
 
 /-! ### non-vacuity -/
 
